@@ -25,6 +25,130 @@ def chance(rng, p):
     return rng.random() < p
 
 
+# --------------------------------------------------------------------------- value parsers
+# a["vp"]: "string" | "os" | "bool" | "count" | ("i64", lo, hi)                      (the parsers every stream uses)
+#        | "boolish" | "falsey" | "nonempty" | ("pv", [(name, [alias..], hide)..]) | ("int", type, lo, hi)
+#          (Profile.vp_wide > 0 only: BoolishValueParser, FalseyValueParser, NonEmptyStringValueParser,
+#           PossibleValuesParser -- ignore_case is the argument's `icase` flag --, value_parser!(T).range(lo..=hi))
+INT_BOUNDS = {"u8": (0, 2**8 - 1), "i8": (-2**7, 2**7 - 1), "u16": (0, 2**16 - 1), "i16": (-2**15, 2**15 - 1),
+              "u32": (0, 2**32 - 1), "i32": (-2**31, 2**31 - 1), "u64": (0, 2**64 - 1), "i64": (-2**63, 2**63 - 1)}
+WIDE_INT_TYPES = ["u8", "i8", "u16", "i16", "u32", "i32", "u64"]
+PV_POOL = [b"v", b"w", b"x1", b"1", b"zz", b"3", b"true", b"fast", b"Slow", b"AUTO", b"k", b"on", b"d", b"dm", b"pd", b"e",
+           "\u00e9".encode(), "\u00c9t\u00e9".encode(), "stra\u00dfe".encode()]
+BOOLISH_LITS = [b"y", b"yes", b"t", b"true", b"on", b"1", b"n", b"no", b"f", b"false", b"off", b"0"]
+
+
+def vp_sx(vp):
+    if isinstance(vp, str):
+        return vp
+    if vp[0] == "i64":
+        return "(i64 %d %d)" % (vp[1], vp[2])
+    if vp[0] == "int":
+        return "(int %s %d %d)" % (vp[1], vp[2], vp[3])
+    if vp[0] == "pv":
+        return "(pv %s)" % " ".join("(%s%s)" % ("hide " if h else "", " ".join(hexs(x) for x in [n] + list(al)))
+                                    for n, al, h in vp[1])
+    raise ValueError(vp)
+
+
+def vp_is_wide(vp):
+    return vp in ("boolish", "falsey", "nonempty") or (isinstance(vp, tuple) and vp[0] in ("pv", "int"))
+
+
+def gen_wide_vp(rng, action):
+    """a value parser of the wide family that the action's type check admits"""
+    if action in ("settrue", "setfalse"):
+        return pick(rng, ["boolish", "falsey"])
+    if action == "count":
+        # the action's default "0" goes through the parser too: mostly keep 0 inside the range
+        return ("int", "u8", 0 if chance(rng, 0.85) else 1, pick(rng, [255, 3, 1, 0]))
+    k = rng.random()
+    if k < 0.4:
+        names = rng.sample(PV_POOL, rng.randrange(1, 5))
+        pvs = []
+        for n in names:
+            al = [x for x in rng.sample(PV_POOL, rng.randrange(0, 3)) if x not in names] if chance(rng, 0.4) else []
+            pvs.append((n, al, chance(rng, 0.3)))
+        return ("pv", pvs)
+    if k < 0.75:
+        t = pick(rng, WIDE_INT_TYPES)
+        tmin, tmax = INT_BOUNDS[t]
+        r = rng.random()
+        if r < 0.3:
+            lo, hi = tmin, tmax
+        elif r < 0.8:
+            lo, hi = max(tmin, -5), min(tmax, 300)
+        elif r < 0.9:
+            lo, hi = max(tmin, tmax - 3), tmax
+        else:
+            lo, hi = min(tmax, 7), max(tmin, 3)           # empty range
+        return ("int", t, lo, hi)
+    return pick(rng, ["boolish", "falsey", "nonempty", "nonempty"])
+
+
+def widen_vp(rng, a):
+    """give the argument a wide value parser and move the values its definition carries (defaults, default-missing,
+    env) into that parser's language most of the time, so that most lines still parse"""
+    a["vp"] = gen_wide_vp(rng, a.get("action"))
+    if isinstance(a["vp"], tuple) and a["vp"][0] == "pv" and a.get("action") in ("set", "append", None) and chance(rng, 0.4):
+        a["flags"].add("icase")
+    for key in ("default", "dmissing"):
+        if a.get(key):
+            a[key] = [wide_value(rng, a, chance(rng, 0.85)) for _ in a[key]]
+    if a.get("env") and a["env"][1] is not None:
+        a["env"] = (a["env"][0], wide_value(rng, a, chance(rng, 0.8)))
+
+
+def flip_case(rng, b):
+    try:
+        t = b.decode()
+    except UnicodeDecodeError:
+        return b
+    return "".join((ch.upper() if ch.islower() else ch.lower()) if chance(rng, 0.5) else ch for ch in t).encode()
+
+
+def wide_value(rng, a, safe):
+    """a candidate value for an argument with a wide value parser: inside the language when `safe`, else a boundary
+    neighbour / wrong case / near miss / ill-formed bytes"""
+    vp = a["vp"]
+    if vp == "nonempty":
+        return pick(rng, SAFE_VALUES) if safe else pick(rng, [b"", b"v", b"\xff", b"x1"])
+    if vp in ("boolish", "falsey"):
+        if safe or chance(rng, 0.4):
+            v = pick(rng, BOOLISH_LITS)
+            return flip_case(rng, v) if chance(rng, 0.3) else v
+        return pick(rng, [b"", b"maybe", b"2", b"yess", b"tru", "\u212a".encode(), b"o\xff", b" on", b"ON ", b"e", b"3"])
+    if vp[0] == "pv":
+        names = [x for n, al, _h in vp[1] for x in [n] + list(al)]
+        icase = "icase" in a.get("flags", ())
+        if safe:
+            v = pick(rng, names)
+            return flip_case(rng, v) if icase and chance(rng, 0.5) else v
+        r = rng.random()
+        if r < 0.35:
+            return flip_case(rng, pick(rng, names))
+        if r < 0.5:
+            return pick(rng, names) + pick(rng, [b"x", b" ", b"\xff"])
+        if r < 0.6:
+            return pick(rng, names)[:-1]
+        if r < 0.7:
+            return pick(rng, ["\u212a".encode(), "STRASSE".encode(), "\u00c9".encode(), "stra\u1e9ee".encode()])
+        return pick(rng, VALUES)
+    if vp[0] == "int":
+        t, lo, hi = vp[1], vp[2], vp[3]
+        tmin, tmax = INT_BOUNDS[t]
+        if safe and lo <= hi:
+            v = pick(rng, [lo, hi, min(hi, lo + 1), max(lo, hi - 1), max(lo, min(hi, 0)), max(lo, min(hi, 7))])
+            return (b"+" if v >= 0 and chance(rng, 0.1) else b"") + (b"0" if chance(rng, 0.1) else b"") * 2 + str(v).encode() \
+                if chance(rng, 0.2) else str(v).encode()
+        cands = [lo - 1, lo, hi, hi + 1, tmin - 1, tmin, tmax, tmax + 1, 0, -1, 2**63, -2**63 - 1, 2**64, 2**64 - 1]
+        if chance(rng, 0.75):
+            return str(pick(rng, cands)).encode()
+        return pick(rng, [b"", b"+", b"-", b"-0", b"+0", b"1x", b"0x1", b" 1", b"1 ", b"1_0", b"\xff", b"--1", b"+-1",
+                          "\u0661".encode(), b"1e3", b"1.0"])
+    raise ValueError(vp)
+
+
 # --------------------------------------------------------------------------- printing
 def arg_sx(a):
     it = [hexs(a["id"])]
@@ -51,7 +175,7 @@ def arg_sx(a):
         it.append("(term %s)" % hexs(a["term"]))
     if a.get("vp"):
         vp = a["vp"]
-        it.append("(vp %s)" % (vp if isinstance(vp, str) else "(i64 %d %d)" % (vp[1], vp[2])))
+        it.append("(vp %s)" % vp_sx(vp))
     if a.get("flags"):
         it.append("(flags %s)" % " ".join(sorted(a["flags"])))
     if a.get("default"):
@@ -166,6 +290,8 @@ class Profile:
         self.infer = 0.15
         self.pos_alias = 0.0      # positionals carrying (meaningless) long aliases
         self.group_nesting = 0.0  # groups naming other groups (or themselves) as members: rejected by the validity gate
+        self.vp_wide = 0.0        # boolish / falsey / non-empty / possible-value / narrow ranged-integer value parsers
+        self.vp_wide_ext = 0.0    # ... as the external-subcommand value parser
         self.conventional = False
         self.__dict__.update(kw)
 
@@ -291,6 +417,8 @@ def gen_cmd(rng, prof, depth=0, path="p", used_env=None, inherited=None):
             a["flags"].add("global")
         if chance(rng, 0.05):
             a["flags"].add("hide")
+        if prof.vp_wide and chance(rng, prof.vp_wide):
+            widen_vp(rng, a)
         c["args"].append(a)
 
     # positionals
@@ -344,6 +472,8 @@ def gen_cmd(rng, prof, depth=0, path="p", used_env=None, inherited=None):
             al = fresh_long()
             if al:
                 a["aliases"] = [(al.encode(), chance(rng, 0.5))]
+        if prof.vp_wide and chance(rng, prof.vp_wide):
+            widen_vp(rng, a)
         c["args"].append(a)
 
     # groups and relations
@@ -454,6 +584,8 @@ def gen_cmd(rng, prof, depth=0, path="p", used_env=None, inherited=None):
             S.append("allow_external_subcommands")
         else:
             c["ext"] = pick(rng, ["os", "string"])
+            if prof.vp_wide_ext and chance(rng, prof.vp_wide_ext):
+                c["ext"] = vp_sx(gen_wide_vp(rng, None))
     # repair the one cross-constraint that would make most such trees invalid
     if any("last" in a["flags"] and "required" in a["flags"] for a in c["args"]) and c["subs"] \
             and "subcommand_negates_reqs" not in S and "args_conflicts_with_subcommands" not in S:
@@ -492,6 +624,11 @@ def takes_value(a):
 
 
 def value_for(rng, a, safe):
+    if vp_is_wide(a.get("vp")):
+        v = wide_value(rng, a, safe)
+        if a.get("delim") and chance(rng, 0.3):
+            v = v + b"," + wide_value(rng, a, safe)
+        return v
     if a.get("vp") and not isinstance(a["vp"], str):
         return pick(rng, [b"1", b"0", b"300", b"-5", b"7"] if safe else [b"1", b"301", b"-6", b"x", b"+3", b""])
     v = pick(rng, SAFE_VALUES if safe else VALUES)
